@@ -15,7 +15,7 @@ K_STALE = "stale_signal_after_same_signum_restart"
 K_ONE0 = "oneshot_stopped_without_callback"
 K_ONECB = "oneshot_restart_inside_callback_stopped"
 FIXED = os.environ.get("VERIF_C13_FIXED", "1") == "1"   # compare against the model variant with the flag fix
-STALEFIX = os.environ.get("VERIF_C13_STALEFIX", "0") == "1"   # model variant fs: one-shot stop only after the callback
+STALEFIX = os.environ.get("VERIF_C13_STALEFIX", "1") == "1"   # model variant fs: one-shot stop only after the callback
 
 
 # --------------------------------------------------------------------------
